@@ -4,8 +4,10 @@ T_CORR = ("machine-checked Coq theorems over an executable Gallina model + corre
 CHECKS = [
     dict(id='C20',
          text=("Coq theorems: for every operation history the handle-store model of the Go sets refines std++ gset "
-               "(same outputs, duplicate-free Elements, operands never modified); heap model of pq+container/heap: "
-               "see evidence for which invariants are proved. The model is tied to the code by running both on "
+               "(same outputs, duplicate-free Elements, operands never modified); for the model of pq + container/heap "
+               "the invariant (heap order, distinct ids, every setIndex value accurate) holds in every reachable "
+               "state, Pop returns a minimal element, Push/Pop/Remove/Fix conserve the multiset, Fix repairs an "
+               "arbitrary priority change, no out-of-range access on defined operations. The model is tied to the code by running both on "
                "exhaustive small and random long histories with full read-back of all live sets after every op."),
          note=("Trusted: Coq kernel, extraction (ExtrOcamlBasic), ocaml/driver.ml, Go harness; Go's container/heap "
                "is modelled by transliteration (Cont/Heap.v), Go map iteration assumed to enumerate each key once."),
